@@ -86,7 +86,7 @@ def run(repo, rep):
     for f in repo.all_functions():
         if f.key not in cone or f.module is not m:
             continue
-        pops = [c for c in ast.walk(f.node) if isinstance(c, ast.Call) and call_name(c) == '_DEFERRED_DISPATCH_BY_NAME.pop']
+        pops = [c for c in ast.walk(f.node) if isinstance(c, ast.Call) and call_name(c) == __import__('engine.roles', fromlist=['x']).name(repo, 'deferred_store') + '.pop']
         if not pops:
             continue
         par = enclosing_map(f.node)
